@@ -111,24 +111,35 @@ impl Sys {
             let mut cand: Vec<usize> = self.a[i].iter().chain(self.b[i].iter()).chain(self.c[i].iter()).filter(|(k, cc)| *k != Fq::ZERO && *cc > col && *cc >= self.ninst && !fixed[*cc]).map(|(_, cc)| *cc).collect();
             cand.sort();
             cand.dedup();
-            let u = *cand.last()?;
-            let (au, bu, cu) = (coeff(&self.a[i], u), coeff(&self.b[i], u), coeff(&self.c[i], u));
-            let single = if au == Fq::ZERO && bu == Fq::ZERO && cu != Fq::ZERO {
-                Some((a * b - c) * cu.inverse()?)
-            } else if au == Fq::ZERO && cu == Fq::ZERO && bu != Fq::ZERO {
-                a.inverse().map(|ai| (c * ai - b) * bu.inverse().unwrap())
-            } else if bu == Fq::ZERO && cu == Fq::ZERO && au != Fq::ZERO {
-                b.inverse().map(|bi| (c * bi - a) * au.inverse().unwrap())
-            } else if only_const(&self.b[i]) && bu == Fq::ZERO {
-                // beta * A(z) = C(z): linear in u through A and C
-                let k = b * au - cu;
-                k.inverse().map(|ki| (c - a * b) * ki)
-            } else if only_const(&self.a[i]) && au == Fq::ZERO {
-                let k = a * bu - cu;
-                k.inverse().map(|ki| (c - a * b) * ki)
-            } else {
-                None
-            };
+            if cand.is_empty() {
+                return None;
+            }
+            // the newest unknown that this constraint determines linearly (usually the variable the constraint
+            // was written to define; when it cannot absorb the change -- e.g. 0 * u = c -- an older one)
+            let mut single: Option<(usize, Fq)> = None;
+            for &u in cand.iter().rev() {
+                let (au, bu, cu) = (coeff(&self.a[i], u), coeff(&self.b[i], u), coeff(&self.c[i], u));
+                let delta = if au == Fq::ZERO && bu == Fq::ZERO && cu != Fq::ZERO {
+                    cu.inverse().map(|ci| (a * b - c) * ci)
+                } else if au == Fq::ZERO && cu == Fq::ZERO && bu != Fq::ZERO {
+                    a.inverse().map(|ai| (c * ai - b) * bu.inverse().unwrap())
+                } else if bu == Fq::ZERO && cu == Fq::ZERO && au != Fq::ZERO {
+                    b.inverse().map(|bi| (c * bi - a) * au.inverse().unwrap())
+                } else if only_const(&self.b[i]) && bu == Fq::ZERO {
+                    // beta * A(z) = C(z): linear in u through A and C
+                    let k = b * au - cu;
+                    k.inverse().map(|ki| (c - a * b) * ki)
+                } else if only_const(&self.a[i]) && au == Fq::ZERO {
+                    let k = a * bu - cu;
+                    k.inverse().map(|ki| (c - a * b) * ki)
+                } else {
+                    None
+                };
+                if let Some(d) = delta {
+                    single = Some((u, d));
+                    break;
+                }
+            }
             // several later booleans in a linear constraint: a bit decomposition
             let lin = if only_const(&self.b[i]) {
                 Some((b, &self.a[i]))
@@ -145,7 +156,7 @@ impl Sys {
                 }
             }
             if !done {
-                let delta = single?;
+                let (u, delta) = single?;
                 z[u] += delta;
                 fixed[u] = true;
             }
